@@ -1,5 +1,6 @@
 """C18 - linked parameters stay mutually consistent"""
 from sa.core import rule, prop_info
+from sa.cfg import CFG
 from sa.lib import *  # noqa: F401,F403
 from sa.lib import attr_stores, func_calls, compare_ops, raised_names, origins
 from sa.model import AnchorMissing, UNKNOWN
@@ -49,6 +50,15 @@ def inverted_limits_refused(ctx):
             for l, op, r in compare_ops(n.test):
                 if op == '<' and l.startswith('max') and r.startswith('min'):
                     ok = True
+    if not ok:
+        # the refusal may be reported through a message variable raised at the end: the side of the test on which max < min never
+        # completes normally (flags bound to literals are followed)
+        ccfg = CFG(cl.node, m, cl.module)
+        for t in ccfg.nodes:
+            if t.kind == 'test' and not isinstance(t.ast, ast.stmt) and not (isinstance(t.ast, ast.UnaryOp)):
+                if any(op == '<' and l.startswith('max') and r.startswith('min') for l, op, r in compare_ops(t.ast)) and isinstance(t.ast, ast.Compare):
+                    if side_never_completes(ccfg, t.id, 'T'):
+                        ok = True
     ctx.check(ok, f'{cl.qualname}:min/max pair ordered', cl.node, '`if min_ > max_: raise RangeError`',
               'an inverted <p>_min/<p>_max pair is not refused', cl)
     # limits tuple
@@ -647,3 +657,21 @@ def struct_members_are_paired_by_name(ctx):
                   '(the keys of a struct value come in the order the client sent them)', f)
     if n < 3:
         raise AnchorMissing('methods of StructParam not found')
+
+
+@rule('C18.R10', min_instances=1)
+def the_limits_pair_applies_whenever_it_exists(ctx):
+    """Module.checkLimits: whether `<p>_limits` is checked depends on the presence of `<p>_limits` alone.  A selection that
+    compares the COLLECTION of limit attributes found with an exact display (`present == ['_limits']`) skips the pair as soon as
+    the class also has `<p>_min` or `<p>_max`: values outside `<p>_limits` are then accepted"""
+    m = ctx.m
+    cl = m.method(roles.MODULE, 'checkLimits', inherited=False)
+    ctx.analysed(cl)
+    hits = []
+    for c in body_walk(cl.node):
+        if isinstance(c, ast.Compare) and len(c.ops) == 1 and isinstance(c.ops[0], (ast.Eq, ast.NotEq)):
+            for side in (c.left, c.comparators[0]):
+                if isinstance(side, (ast.List, ast.Tuple, ast.Set)) and any(isinstance(e, ast.Constant) and isinstance(e.value, str) and e.value.endswith('_limits') for e in side.elts):
+                    hits.append(c)
+    ctx.check(not hits, f'{cl.qualname}:the pair is selected by its own presence', hits[0] if hits else cl.node, 'no comparison of the set of limit attributes with an exact display',
+              f'`{src(hits[0]) if hits else ""}`: the limits pair is only used when it is the ONLY limit attribute - with an additional <p>_min / <p>_max the pair is ignored', cl)
